@@ -248,4 +248,43 @@ def check_parser(rep, drv, text, what="text"):
                            "text": text, "expression": src, "failing_input": None}, failing_input_found=False)
             return len(cases)
     rep.count("expressions_parsed_like_lark", len(cases))
+    check_printer(rep, drv, text, what)
     return len(cases)
+
+
+def check_printer(rep, drv, text, what="text"):
+    """the other direction: every expression of the text is written by the model's printer (Lex.render_expr: every operand in
+    parentheses, numbers as integer literals or <m>e-<k>; render_expr_parse: the verified parser reads it back) and put in
+    the place of the original; Lark must read the new text and assign the same expressions"""
+    cases = impl.expression_cases(text, with_spans=True)
+    if not cases or any(c_[3] is None for c_ in cases):
+        return
+    texts = drv.ask(["renderexprs", [c_[3] for c_ in cases]])["texts"]
+    t2 = text
+    n_written = 0
+    for (name, src, toks, want, a_, b_), rt in sorted(zip(cases, texts), key=lambda z: -z[0][4]):
+        if rt is None:
+            rep.count("expression_not_renderable")
+            continue
+        t2 = t2[:a_] + rt.rstrip() + t2[b_:]
+        n_written += 1
+    if not n_written:
+        return
+    cases2 = impl.expression_cases(t2)
+
+    def canon(x):      # the two spellings of one function (Abs / abs, ln / log) are one constructor of the model
+        if isinstance(x, list):
+            if len(x) == 3 and x[0] == "fn":
+                return ["fn", {"Abs": "abs", "ln": "log"}.get(x[1], x[1]), canon(x[2])]
+            return [canon(y) for y in x]
+        return x
+    got = [(c_[0], canon(c_[3])) for c_ in cases2]
+    exp = [(c_[0], canon(c_[3])) for c_ in cases]
+    if got != exp:
+        where = next((e_[0] for g_, e_ in zip(got, exp) if g_ != e_), None) if len(got) == len(exp) else None
+        rep.violation(f"the {what} with every right-hand side written by the model's printer is "
+                      + ("not read by Lark" if not cases2 else f"read differently by Lark (first difference: {where})"),
+                      {"kind": "correspondence", "relation": "Lark + expressions.build_expression (shape) on Lex.render_expr of its own tree",
+                       "text": text, "rewritten": t2, "failing_input": None}, failing_input_found=False)
+        return
+    rep.count("expressions_printed_and_read_by_lark", n_written)
